@@ -26,6 +26,7 @@ import dns.exception
 import dns.flags
 import dns.message
 import dns.name
+import dns.rcode
 import dns.rdata
 import dns.rdataclass
 import dns.rdatatype
@@ -763,7 +764,8 @@ def origins_for(key, w, pick):
     if len(kn.labels) > 2:
         cands.append(kn.parent())
         cands.append(dns.name.Name(kn.labels[-2:]))
-    cands.append(dns.name.Name([b"below"] + list(kn.labels)))
+    if len(kn.to_wire()) <= 249:
+        cands.append(dns.name.Name([b"below"] + list(kn.labels)))
     try:
         qn, _ = ref_name(w, 12)
         if struct.unpack("!H", w[4:6])[0]:
@@ -802,6 +804,62 @@ def origin_reads(ctx, c, rep, w, key, now, rm, tsig_ctx, multi, what, pick):
                      f"{what}: with origin={o} ({tag}) the parsed TSIG state (key name, MAC, rdata, next context) differs from the one without origin", rep | {"origin": str(o)})
 
 
+def to_wire_options(ctx, c, rep, key, keyring, p, now, rm):
+    """the options of Message.to_wire / use_tsig around signing: prepend_length, a max_size that forces truncation
+    (prefer_truncation), TooBig raised and the same object rendered again, use_tsig with every optional argument omitted"""
+    def fresh(defaults=False):
+        m = mk_message(c["body"])
+        for j in range(12):   # enough to overflow 512 octets
+            m.answer.append(dns.rrset.from_text(f"r{j}.big.example.", 60, "IN", "TXT", '"' + "x" * 60 + '"'))
+        if defaults:
+            m.use_tsig(key)
+        else:
+            m.use_tsig(key, fudge=p["fudge"], original_id=p.get("orig_id"), other_data=bytes.fromhex(p.get("other", "")))
+        m.request_mac = rm
+        return m
+    oid = p.get("orig_id") if p.get("orig_id") is not None else c["body"]["id"]
+    p2 = dict(p, orig_id=oid)
+    p2.pop("error", None)
+
+    def verify(w, what, pp):
+        t = check_signed(ctx, c, rep, w, None, key, pp, now, rm, None, what)
+        if t is None:
+            return
+        m2, e, log = lib_read(w, keyring, now, rm, None, False)
+        corr_read(ctx, c, w, keyring, now, rm, "none", False, m2, e, log)
+        if e is not None or not m2.had_tsig:
+            fail(ctx, "C14/validate/genuine-rejected/to_wire-options", f"{what}: the signed message does not validate: {e!r}", rep)
+    CLOCK.t = now
+    # prepend_length: two length octets in front of exactly the signed message
+    w = fresh().to_wire(prepend_length=True)
+    if len(w) < 2 or struct.unpack("!H", w[:2])[0] != len(w) - 2:
+        fail(ctx, "C14/sign/prepend_length", "to_wire(prepend_length=True): the prefix is not the length of the message", rep)
+    else:
+        verify(w[2:], "to_wire(prepend_length=True)", p2)
+    # truncation: the TSIG still closes the (shorter) message and signs what is sent
+    try:
+        w = fresh().to_wire(max_size=512, prefer_truncation=True)
+        if len(w) > 512:
+            ctx.count("route.to_wire.truncation-over-limit")
+        verify(w, "to_wire(max_size=512, prefer_truncation=True)", p2)
+    except dns.exception.TooBig:
+        ctx.count("route.to_wire.truncation-toobig")
+    # TooBig, then the same object again without a limit
+    m = fresh()
+    try:
+        m.to_wire(max_size=512)
+        ctx.count("route.to_wire.no-toobig")
+    except dns.exception.TooBig:
+        ctx.count("route.to_wire.toobig-then-again")
+    except BaseException as e:
+        fail(ctx, "C14/sign/to_wire-raises:" + type(e).__name__, f"to_wire(max_size=512) raised {e!r}", rep)
+    verify(m.to_wire(), "to_wire() after a to_wire(max_size=512) that may have raised TooBig", p2)
+    # every optional argument of use_tsig omitted: fudge 300, original id = id, no error, no other data
+    w = fresh(defaults=True).to_wire()
+    verify(w, "use_tsig(key) with defaults", {"fudge": 300})
+    ctx.count("route.to_wire-options")
+
+
 def extra_routes(ctx, c, rep, w, t, key, keyring, p, now, rm):
     """routes and option values around one genuine signed message `w` (only when it reports no TSIG error):
     keyring=True/False, continue_on_error, shortened / emptied / lengthened MAC fields, a second to_wire of the same
@@ -811,8 +869,14 @@ def extra_routes(ctx, c, rep, w, t, key, keyring, p, now, rm):
     sel = c.get("routes", 0)
     if sel & 16:
         origin_reads(ctx, c, rep, w, key, now, rm, None, False, f"{key.algorithm}", c["now"] + len(w))
+    if sel & 32 and not c["body"].get("update"):
+        to_wire_options(ctx, c, rep, key, keyring, p, now, rm)
     # keyring=True is "no keyring" (signed messages must fail); keyring=False switches validation off
     if sel & 1:
+        m2, e, log = lib_read(w, {}, now, rm, None, False)
+        corr_read(ctx, c, w, {}, now, rm, "none", False, m2, e, log)
+        if e is None or not isinstance(e, dns.exception.DNSException):
+            fail(ctx, "C14/from_wire/empty-keyring", f"from_wire(keyring={{}}) of a signed message: {e!r}", rep)
         for kr in (True, False):
             m2, e, log = lib_read(w, kr, now, rm, None, False)
             corr_read(ctx, c, w, kr, now, rm, "none", False, m2, e, log)
@@ -1259,7 +1323,7 @@ def eval_exch(ctx, c, rep):
     if c.get("rfudge") is not None:
         kw["fudge"] = c["rfudge"]
     if c.get("rerror"):
-        kw["tsig_error"] = c["rerror"]
+        kw["tsig_error"] = dns.rcode.Rcode(c["rerror"]) if c["now"] & 1 else c["rerror"]   # enum member or plain int
     try:
         r = dns.message.make_response(sq, **kw)
     except BaseException as e:
@@ -1343,6 +1407,40 @@ def eval_krtext(ctx, c, rep):
     if again != kr or set(back) != set(dns.name.from_text(n).to_text() for n in names):
         fail(ctx, "C14/tsigkeyring/roundtrip", f"from_text(to_text(keyring)) differs from the keyring: {back!r}", rep)
     ctx.count("krtext.keyring")
+    # Key equality is an equivalence that separates name / secret / algorithm, whatever route built the key
+    for n, sec, alg in zip(names, secrets, c["algs"]):
+        a = dns.tsig.Key(n, sec, alg or "hmac-sha256")
+        b = dns.tsig.Key(dns.name.from_text(n.swapcase()), bytes(sec), dns.name.from_text((alg or "hmac-sha256").upper()))
+        diffs = [dns.tsig.Key(other_label + n, sec, alg or "hmac-sha256") for other_label in ("x.",) if len(n) < 200] + [
+            dns.tsig.Key(n, sec + b"\0", alg or "hmac-sha256"), dns.tsig.Key(n, sec[:-1], alg or "hmac-sha256"),
+            dns.tsig.Key(n, sec, "hmac-sha1" if (alg or "hmac-sha256").lower().rstrip(".") != "hmac-sha1" else "hmac-sha512")]
+        ok = (a == b) and (b == a) and not (a != b) and a == a and all((a != d) and not (a == d) and not (d == a) for d in diffs) \
+            and not (a == sec) and (a != sec) and not (a == None)  # noqa: E711
+        if not ok:
+            fail(ctx, "C14/key/equality", f"Key equality is not the equivalence on (name, secret, algorithm) for {n} / {alg}", rep)
+    # the tsig-keygen / named.conf file form (dns.tsigkeyring.from_file), in the spellings c["file_style"] selects
+    i = c["use"]
+    n, sec, alg = names[i], secrets[i], c["algs"][i]
+    b64 = _b64.b64encode(sec).decode()
+    st = c.get("file_style", 0)
+    q = (lambda x: '"' + x + '"') if st & 1 else (lambda x: x)
+    nl = ["\n", "\r\n", "\n\t", " "][(st >> 1) & 3]
+    text = "key " + q(n) + " {" + nl
+    if alg is not None:
+        text += "algorithm " + q(alg) + ";" + nl
+    text += "secret " + '"' + b64 + '"' + ";" + nl + "};" + ("\n" if st & 8 else "")
+    import tempfile
+    with tempfile.NamedTemporaryFile("w", suffix=".key", delete=True) as f:
+        f.write(text)
+        f.flush()
+        try:
+            fk = dns.tsigkeyring.from_file(f.name)
+        except BaseException as e:
+            fk = e
+    exp = dns.tsigkeyring.from_text({n: b64 if alg is None else (alg, b64)})
+    ctx.count("krtext.from_file." + ("ok" if isinstance(fk, dict) else type(fk).__name__))
+    if not isinstance(fk, dict) or fk != exp:
+        fail(ctx, "C14/tsigkeyring/from_file", f"from_file of {text!r} gives {fk!r}, expected {exp!r}", rep)
     # sign through the keyring (dict route of use_tsig), validate through the keyring round-tripped through text
     i = c["use"]
     n, sec, alg = names[i], secrets[i], c["algs"][i]
@@ -1430,12 +1528,15 @@ def gen_name(rng, share=None):
         labs = share.rstrip(".").split(".")
         suffix = ".".join(labs[rng.below(len(labs)):])
         return rng.choice(LABELS) + "." + suffix + "."
+    if rng.chance(1, 25):
+        # a key name of the maximal wire length 255 (63+63+63+61 octets of labels)
+        return ".".join(["K" * 63, "e" * 63, "y" * 63, "z" * 61]) + "."
     k = rng.range(1, 3)
     return ".".join(rng.choice(LABELS) for _ in range(k)) + "."
 
 
 def gen_key(rng, share=None, alg=None):
-    n = rng.choice([1, 8, 16, 20, 32, 64, 65, 100, 200])
+    n = rng.choice([0, 1, 8, 16, 20, 32, 64, 65, 100, 200])   # 0: the empty secret is a (poor but) valid HMAC key
     return {"name": gen_name(rng, share), "secret": rng.bytes(n).hex(), "alg": alg or rng.choice(ALGS)}
 
 
@@ -1502,7 +1603,8 @@ def gen_krtext(rng):
         body = gen_body(rng, response=False)
     return {"kind": "krtext", "names": names, "secrets": [rng.bytes(rng.choice([1, 2, 3, 16, 32, 57, 64])).hex() for _ in names],
             "algs": [rng.choice([None] * 6 + ALGS + ["HMAC-SHA512.", "hmac-sha256"]) for _ in names], "use": rng.below(n),
-            "default_alg": rng.choice(ALGS), "keyname_as_text": rng.chance(1, 2), "body": body, "now": gen_now(rng) + 70000}
+            "default_alg": rng.choice(ALGS), "keyname_as_text": rng.chance(1, 2), "body": body, "now": gen_now(rng) + 70000,
+            "file_style": rng.below(16)}
 
 
 def gen_tsig(rng, idv):
@@ -1519,11 +1621,16 @@ def gen_tsig(rng, idv):
 
 
 def gen_now(rng):
+    if rng.chance(1, 12):
+        return 2 ** 48 - 1 - 70000 - rng.choice([0, 1, 65535, 70000])   # signing time at / just below the 48-bit limit
     return rng.choice([1700000000, 0x7FFFFFFF, 0x80000000, 0xFFFFFFFF, 0x100000000, 0x1234567890, 70000, 2 ** 47 + 12345, rng.below(2 ** 33)])
 
 
-def gen_msg(rng, flips, alg=None):
+def gen_msg(rng, flips, alg=None, big=False):
     body = gen_body(rng)
+    if big and not body.get("update"):
+        # beyond 16 KiB: the TSIG RR starts above 0x3FFF, where no compression pointer can reach
+        body["rrs"] = [[rng.choice([1, 2, 3]), f"n{j}.{rng.choice(OWNER_NAMES)}", 60, "TXT", '"' + "t" * 200 + '"'] for j in range(90)]
     share = body["q"][0] if body.get("q") else "example."
     key = gen_key(rng, share, alg)
     p = gen_tsig(rng, body["id"])
@@ -1533,7 +1640,7 @@ def gen_msg(rng, flips, alg=None):
          "keyring": rng.choice(["key", "key", "dict-key", "dict-bytes", "callable"]),
          "deltas": sorted(set([0, rng.choice([f, -f]), rng.choice([f + 1, -f - 1])])),
          "signer": rng.choice(["lib", "lib", "lib", "ref", "renderer"]),
-         "routes": rng.choice([0, 1, 2, 4, 8, 8, 3, 15]) | (16 if rng.chance(1, 2) else 0)}
+         "routes": rng.choice([0, 1, 2, 4, 8, 8, 3, 15]) | (16 if rng.chance(1, 2) else 0) | (32 if rng.chance(1, 3) else 0)}
     if flips:
         c["flips"] = flips
     return c
@@ -1711,6 +1818,10 @@ def generate(ctx: Ctx, scale, rng, flips=True):
         go(gen_msg(rng, "all" if flips else None))
     for _ in range(n(150)):
         go(gen_msg(rng, None))
+    for _ in range(n(3)):
+        c = gen_msg(rng, None, big=True)
+        c["flips"] = sorted(set(rng.below(17000 * 8) for _ in range(150)))
+        go(c, sample=False)
     for mut in MUTS:
         for _ in range(n(6)):
             go(gen_reject(rng, mut))
